@@ -52,6 +52,9 @@ Templates(kind) ==
   CASE kind = "entry" -> (IF Pairs THEN Variants2(EntryBase, EntryFactors) ELSE Variants1(EntryBase, EntryFactors))
                           \cup SizeCombos(EntryBase, {"bs", "ks", "vs"})
                           \cup SizeCombos([EntryBase EXCEPT !.pos = "end"], {"bs", "ks", "vs"})
+                          \* the reader tells a record from the zero padding behind the log by
+                          \* checksum, key size, value size and timestamp: all sizes with timestamp 0
+                          \cup SizeCombos([EntryBase EXCEPT !.ts = "0"], {"bs", "ks", "vs"})
     [] kind = "root"  -> (IF Pairs THEN Variants2(RootBase, RootFactors) ELSE Variants1(RootBase, RootFactors))
                           \cup SizeCombos(RootBase, {"ss", "es"})
     [] kind = "meta"  -> UNION {SizeCombos([MetaBase EXCEPT !.stale = st], {"ss", "es"}) : st \in Stales}
